@@ -2505,6 +2505,11 @@ class Engine(object):
                 key = 'model:str.%s (over-approximated: any string)' % name
                 self.trusted_used[key] = self.trusted_used.get(key, 0) + 1
                 return SStr(z3.FreshConst(z3.StringSort(), name))
+        model = self.c.env.get('__str_methods__', {}).get(name)
+        if model is not None and isinstance(recv, SStr):
+            key = 'model:str.%s (contract-supplied)' % name
+            self.trusted_used[key] = self.trusted_used.get(key, 0) + 1
+            return model(self, recv, args, kwargs)
         raise Unsupported('str.%s on symbolic string' % name)
 
     def call_builtin(self, fn, args, kwargs, node):
